@@ -531,6 +531,11 @@ pub fn generate(profile_name: &str, seed: u64) -> Scenario {
     if profile_name == "idle" && seed % 48 == 11 {
         return generate_selfowned(seed);
     }
+    if (profile_name == "idle" || profile_name == "refs") && seed % 24 == 7 {
+        let mut sc = generate_stopcancel(seed);
+        sc.profile = profile_name.to_string();
+        return sc;
+    }
     if (profile_name == "lifecycle" || profile_name == "kill") && seed % 16 == 5 {
         let mut sc = generate_pileup(seed);
         sc.profile = profile_name.to_string();
@@ -1171,6 +1176,63 @@ fn generate_selfowned(seed: u64) -> Scenario {
 /// Several reasons to end pile up while the actor cannot look at its channels (it is still inside a slow on_start, or parked in
 /// a gated handler): stop, kill, the last reference going away, a queued message whose handler panics, ordinary messages - in
 /// every order, all issued at one instant. Whatever happens next must be one of the outcomes each single cause allows.
+/// A stop() that requests nothing: its future is given up while it is still waiting for room in a full mailbox (a timeout
+/// around it expires), or is dropped without ever being polled. The actor is used afterwards as if nothing had happened: its
+/// on_run goes on idling, messages are served, and a later stop() - or the teardown - ends it.
+fn generate_stopcancel(seed: u64) -> Scenario {
+    let mut r = Rng::new(seed ^ 0x57CA);
+    let cap = *r.pick(&[1usize, 1, 2, 3]);
+    let mut uid = 0u64;
+    let mut nu = || {
+        uid += 1;
+        uid
+    };
+    let mut ops = vec![];
+    ops.push(ClientOp { pre: Pre::None, op: Op::CloneSlot { from: 0, to: 1 } });
+    ops.push(ClientOp { pre: if r.chance(50) { Pre::Sleep(2 * r.range(1, 2)) } else { Pre::None }, op: Op::Send { slot: 0, kind: SendKind::Tell, mty: MTy::U, body: Body { uid: nu(), flags: 0, steps: vec![Step::Gate(0)] } } });
+    for i in 0..cap {
+        ops.push(ClientOp { pre: if i == 0 { Pre::Sleep(2) } else { Pre::None }, op: Op::Send { slot: 0, kind: SendKind::Tell, mty: MTy::U, body: Body::plain(nu()) } });
+    }
+    // the stop attempts that come to nothing
+    let n_attempts = 1 + r.below(2);
+    for _ in 0..n_attempts {
+        let slot = r.below(2) as usize;
+        ops.push(ClientOp { pre: Pre::None, op: if r.chance(70) { Op::StopTo { slot, ms: 2 * r.range(1, 2) } } else { Op::StopDeferred { slot, defer: 0 } } });
+    }
+    ops.push(ClientOp { pre: Pre::Sleep(2), op: Op::OpenGate(0) });
+    // life goes on
+    let n_after = 1 + r.below(4);
+    for _ in 0..n_after {
+        let kind = *r.pick(&[SendKind::Ask, SendKind::Tell, SendKind::AskTo(20)]);
+        ops.push(ClientOp { pre: Pre::Sleep(2 * r.range(1, 4)), op: Op::Send { slot: r.below(2) as usize, kind, mty: MTy::U, body: Body::plain(nu()) } });
+    }
+    ops.push(ClientOp { pre: Pre::Sleep(2 * r.range(2, 5)), op: Op::ProbeAlive { slot: 0 } });
+    if r.chance(50) {
+        ops.push(ClientOp { pre: Pre::Sleep(2), op: Op::Stop { slot: r.below(2) as usize } });
+    }
+    let nrun = 8 + r.below(8);
+    let actor = ActorSpec {
+        cap: Some(cap),
+        start: HookScript::default(),
+        run: (0..nrun).map(|_| RunStep { segs: vec![2 * r.range(1, 2)], steps: vec![], out: Out::True }).collect(),
+        stop: HookScript { delay: if r.chance(30) { 2 } else { 0 }, steps: vec![], out: Out::Ok },
+        run_err_when_handled: None,
+        in_peers: false,
+    };
+    Scenario {
+        seed,
+        pert: 0,
+        profile: "idle".to_string(),
+        actors: vec![actor],
+        clients: vec![ClientSpec { init: vec![Some(0), None, None, None], ops, drop_at_end: r.chance(50) }],
+        ngates: 1,
+        teardown: vec![*r.pick(&[Teardown::Stop, Teardown::Kill, Teardown::DropAll])],
+        sample_until: 41,
+        default_cap: 32,
+        fixed_timing: true,
+    }
+}
+
 fn generate_pileup(seed: u64) -> Scenario {
     let mut r = Rng::new(seed ^ 0x911E);
     let in_start = r.chance(50);
